@@ -13,7 +13,8 @@ LEVEL = "translation_validation"
 EXPLANATION = ("Each of the 8 step functions is interpreted abstractly once per option literal found in the code (12 paths): fresh leaves are atoms, "
                "parameters are symbols, every returned value, recorded sample (per function argument), side constraint (normal form and sense) and "
                "oracle query is collected and compared, up to renaming of the fresh leaves, with the same interpretation of the reference step in "
-               "spec/steps.py (transcribed from the step docstrings). Every option dispatch must be closed by a raise.")
+               "spec/steps.py (transcribed from the step docstrings). Every option dispatch must be closed by a raise."
+               " R-STEPOPT: the unknown-option probe is also run with each numeric argument equal to 0 (a symbol equals nothing but itself).")
 TRUSTED = ["CPython ast", "spec/steps.py is a faithful transcription of the documented optimality conditions", "sa/nf.py arithmetic",
            "operator overloads deliver the vector-space calculus (C06)"]
 ASSUMPTIONS = ["that the real operation on a real function satisfies what was recorded is mathematics, not decided here"]
